@@ -95,6 +95,8 @@ ExpEnd(T, n, er) ==
     LET ns == SibsAfter(T, n)  hits == SelectSeq(ns, LAMBDA x : T[x].tx = 2) IN
     CASE er = 1 -> IF ns # <<>> /\ T[ns[1]].tx = 1 THEN T[ns[1]].e ELSE T[n].e
       [] er = 2 -> IF hits # <<>> THEN T[hits[1]].e ELSE T[n].e
+      \* 3: `expandEnd: {pattern: $S}` with $S bound to the matched statement - the next sibling when it reads the same
+      [] er = 3 -> IF ns # <<>> /\ T[n].tx >= 100 /\ T[ns[1]].tx = T[n].tx THEN T[ns[1]].e ELSE T[n].e
       [] OTHER -> T[n].e
 
 EditReasons(r) ==
